@@ -13,7 +13,7 @@ import (
 )
 
 var (
-	vhBlockOp   = 0 // 0 recv, 1 recv as branch condition, 2 recv2 (v, ok := <-c), 3 send, 4 range over channel, 5 select (two receive clauses)
+	vhBlockOp   = 0 // 0 recv, 1 recv as branch condition, 2 recv2 (v, ok := <-c), 3 send, 4 range over channel, 5 select (two receive clauses), 6 select {} (no clause)
 	vhSelCalls  int
 	vhSelDoneAt0 bool // at every reflect.Select so far, the frame's done case was among the cases
 	vhSelDoneIdx int
@@ -94,6 +94,10 @@ func vhBlockNode(i *Interpreter) (*node, *frame) {
 		n = vhSelect2(i)
 		n.tnext = next
 		f.data[1] = reflect.ValueOf(make(chan bool))
+		_select(n)
+	case 6:
+		// select {}: parks the goroutine for ever - unless the evaluation is cancelled
+		n = &node{interp: i, kind: selectStmt, tnext: next}
 		_select(n)
 	}
 	return n, f
